@@ -14,6 +14,10 @@ def extract_chain(fn):
     Recognises `format!("<p>{}<s>", s.replace(a,b).replace(c,d)...)`, `let e = s.replace(..)..; format!(..{e}..)` and a bare chain."""
     envs = A.collect_envs(fn)
     chains = []
+    # any other way out of the function (early return, branch) is a second encoder the chain does not describe
+    for n in A.walk(fn.body):
+        if n["k"] in ("Return", "If", "Match", "While", "ForLoop", "Loop"):
+            return None
 
     def chain_of(e, env):
         reps = []
